@@ -95,14 +95,39 @@ fn tok_string(alpha: &[&str], idx: u64, k: u32) -> String {
     seq_decode(idx, alpha.len() as u64, k).iter().map(|i| alpha[*i as usize]).collect()
 }
 
-fn escapes(report: &Report, k: u32, tokens: bool) {
+/// every upper/lower-case spelling of the four named entities (entity names are case-sensitive: `&AMP;`
+/// is not something escape produces, so its `&` is a bare ampersand), plus glue
+fn case_variants() -> Vec<String> {
+    let mut v = Vec::new();
+    for name in ["amp", "lt", "gt", "quot"] {
+        let n = name.len();
+        for mask in 0..(1u32 << n) {
+            let word: String = name.chars().enumerate().map(|(i, c)| if mask >> i & 1 == 1 { c.to_ascii_uppercase() } else { c }).collect();
+            v.push(format!("&{word};"));
+        }
+    }
+    for g in ["&", ";", "x", "&#39;", "&#X27;", "<"] {
+        v.push(g.to_string());
+    }
+    v
+}
+
+fn escapes(report: &Report, k: u32, mode: u8) {
+    let tokens = mode == 1;
+    let cases = case_variants();
     let parser = cfgs::parser(Config::Stdlib);
     let chars = ["<", ">", "&", "\"", "'", ";", "#", "a", "l", "t", "m", "p", " ", "é", "g", "q", "u", "o", "3", "9"];
     let toks = ["&amp;", "&lt;", "&gt;", "&#39;", "&quot;", "&", "<", ">", "\"", "'", ";", "amp", "lt", "#39", "quot", "a", "é", "&am", "&#3", "&quo"];
-    let alpha: &[&str] = if tokens { &toks } else { &chars };
+    let case_refs: Vec<&str> = cases.iter().map(|s| s.as_str()).collect();
+    let alpha: &[&str] = match mode {
+        1 => &toks,
+        2 => &case_refs,
+        _ => &chars,
+    };
     let string_of = |_: &[&str], i: u64, k: u32| tok_string(alpha, i, k);
     let total = seq_count(alpha.len() as u64, k);
-    let name = format!("escape+escape_once/{}<={k}", if tokens { "entity-tokens" } else { "len" });
+    let _ = tokens;
+    let name = format!("escape+escape_once/{}<={k}", ["len", "entity-tokens", "entity-case-variants"][mode as usize]);
     let nontriv = AtomicU64::new(0);
     par_range(
         report,
@@ -315,8 +340,9 @@ pub fn run(tier: Tier) -> i32 {
     report.set_rule("all strings up to length k over the three alphabets of the statement (extended with the letters of every entity name, more hex digits and reserved characters); every string is escaped, escaped once (and twice), url-encoded, decoded, round-tripped and tag-stripped; distinct by construction; non-trivial = the filter had to change the input");
     report.assume("url_decode reference: '+' -> space, %XX -> byte, malformed escapes verbatim, Err iff the decoded bytes are not UTF-8");
     let t = tier.thorough();
-    escapes(&report, if t { 5 } else { 4 }, false);
-    escapes(&report, if t { 5 } else { 4 }, true);
+    escapes(&report, if t { 5 } else { 4 }, 0);
+    escapes(&report, if t { 5 } else { 4 }, 1);
+    escapes(&report, if t { 3 } else { 2 }, 2);
     urls(&report, if t { 5 } else { 4 });
     strip(&report, if t { 6 } else { 5 });
     report.finish()
